@@ -735,5 +735,6 @@ def main(argv):
         print('HARNESS-ERROR %s' % e)
         return 2
     except Exception as e:
-        print('HARNESS-ERROR %r\n%s' % (e, traceback.format_exc()))
+        print(traceback.format_exc())
+        print('HARNESS-ERROR %r' % (e,))
         return 2
